@@ -12,7 +12,7 @@ EXTENDS Integers, Sequences
 
 EntryPoints == {"DecodeAddress", "DecodeCashAddress", "DecodeWIF", "Base58Decode", "Base58CheckDecode", "Bech32Decode",
                 "NewKeyFromString", "NewBlockFromBytes", "NewTxFromBytes", "BloomLoadAndQuery", "MerkleExtract",
-                "GcsFromNBytesAndQuery", "GcsFromBytesAndQuery", "JsonpbUnmarshal", "BlockScan"}
+                "GcsFromNBytesAndQuery", "GcsFromBytesAndQuery", "JsonpbUnmarshal", "BlockScan", "NewAddressPubKey"}
 CpuBaseUs == 50000          \* 50 ms
 CpuQuadNsPerByte2 == 200    \* 200 ns * len^2
 AllocBaseKiB == 8192        \* 8 MiB
